@@ -21,9 +21,13 @@ type V struct {
 	F string `json:"f,omitempty"` // flt: IEEE-754 binary64 bits, hex
 	// str/bin: byte length of the generated pattern content (see content());
 	// arr/map with Rep: number of elements (all int 0, map keys k000, k001, ...)
-	N   int      `json:"n,omitempty"`
-	S   *string  `json:"s,omitempty"` // str/bin: explicit content as hex (overrides the pattern)
-	Rep bool     `json:"rep,omitempty"`
+	N   int     `json:"n,omitempty"`
+	S   *string `json:"s,omitempty"` // str/bin: explicit content as hex (overrides the pattern)
+	Rep bool    `json:"rep,omitempty"`
+	// Seq (with Rep): the elements are pairwise distinct integers in a non monotonic
+	// order (seqElem) instead of zeros, so that the position of every element and the
+	// key every map value belongs to is visible in the decoded value
+	Seq bool     `json:"seq,omitempty"`
 	K   []string `json:"k,omitempty"` // map keys, parallel to E
 	E   []*V     `json:"e,omitempty"`
 
@@ -50,6 +54,13 @@ func vBinLit(b []byte) *V { h := hex.EncodeToString(b); return &V{T: "bin", S: &
 func vArr(e ...*V) *V     { return &V{T: "arr", E: e} }
 func vRepArr(n int) *V    { return &V{T: "arr", Rep: true, N: n} }
 func vRepMap(n int) *V    { return &V{T: "map", Rep: true, N: n} }
+func vSeqArr(n int) *V    { return &V{T: "arr", Rep: true, Seq: true, N: n} }
+func vSeqMap(n int) *V    { return &V{T: "map", Rep: true, Seq: true, N: n} }
+
+// seqElem is element i of a Seq container: i -> (37 i + 11) mod 1009 is injective
+// for i < 1009 (1009 is prime), neither ascending nor descending, and spreads over
+// the one, two and three digit (one and two byte) integers.
+func seqElem(i int) int { return (i*37 + 11) % 1009 }
 func vMap(k []string, e []*V) *V {
 	if len(k) != len(e) {
 		panic("vMap")
@@ -115,6 +126,9 @@ func (v *V) Elems() []*V {
 		v.el = make([]*V, v.N)
 		for i := range v.el {
 			v.el[i] = zeroV
+			if v.Seq {
+				v.el[i] = vInt(strconv.Itoa(seqElem(i)))
+			}
 		}
 	}
 	return v.el
@@ -159,6 +173,9 @@ func (v *V) String() string {
 		}
 		return fmt.Sprintf("%s#%d", v.T, v.N)
 	case "arr":
+		if v.Rep && v.Seq {
+			return fmt.Sprintf("[seq x%d]", v.N)
+		}
 		if v.Rep {
 			return fmt.Sprintf("[0 x%d]", v.N)
 		}
@@ -168,6 +185,9 @@ func (v *V) String() string {
 		}
 		return "[" + strings.Join(p, ",") + "]"
 	case "map":
+		if v.Rep && v.Seq {
+			return fmt.Sprintf("{k000..:seq x%d}", v.N)
+		}
 		if v.Rep {
 			return fmt.Sprintf("{k000..:0 x%d}", v.N)
 		}
